@@ -288,6 +288,14 @@ func (tx *transaction) FetchBucket(meta db.BucketMeta) db.Bucket {
 		return nil
 	}
 	bkt, ok := tx.cache[meta]
+	if ok && !tx.readOnly {
+		// a bucket cached earlier may have been deleted since by this very transaction
+		// (its index entry is then a pending delete of the batch): look it up again
+		if _, deleted := tx.b.Get([]byte(joinBucketPath(bucketNameBucket, bkt.path))); deleted {
+			delete(tx.cache, meta)
+			ok = false
+		}
+	}
 	if !ok {
 		path := joinBucketPath(meta.Paths()...)
 		key := []byte(joinBucketPath(bucketNameBucket, path))
